@@ -1,5 +1,9 @@
-// Trusted: std::cell::OnceCell<T> as an opaque type whose Default is an (empty) cell. The cell
-// only caches followpos(); nothing is assumed about its content.
+// Trusted: std::cell::OnceCell<T>. Default is an empty cell. `get_or_init(f)` returns the content,
+// which -- for a cell that was empty when the value holding it was built -- was produced by a
+// closure with f's contract: vx rule R32 checks that the source file has exactly one
+// `get_or_init` and never sets / takes the cell elsewhere, so every closure that can have
+// initialised it is an instance of the one at that call site. `cell_preset` stands for "already
+// initialised when this value was built" (false for Default; unknown for anything else).
 verus! {
 
 #[verifier::external_type_specification]
@@ -7,6 +11,13 @@ verus! {
 #[verifier::reject_recursive_types(T)]
 pub struct ExOnceCell<T>(std::cell::OnceCell<T>);
 
-pub assume_specification<T>[ <std::cell::OnceCell<T> as Default>::default ]() -> (r: std::cell::OnceCell<T>);
+pub uninterp spec fn cell_preset<T>(c: std::cell::OnceCell<T>) -> bool;
+
+pub assume_specification<T>[ <std::cell::OnceCell<T> as Default>::default ]() -> (r: std::cell::OnceCell<T>)
+    ensures !cell_preset(r);
+
+pub assume_specification<T, F: FnOnce() -> T>[ std::cell::OnceCell::<T>::get_or_init ](c: &std::cell::OnceCell<T>, f: F) -> (r: &T)
+    requires f.requires(()),
+    ensures !cell_preset(*c) ==> f.ensures((), *r);
 
 } // verus!
